@@ -71,6 +71,10 @@ def input_trees(r):
     out["kinds-changed-since-last-copy"] = (newer + older, ["-r", "src", "dst"])
     out["links-onto-directories"] = ([D("src"), D("src/real"), F("src/real/x", 3, 7)] + [{"p": "src/l%d" % i, "k": "l", "target": "real"} for i in range(6)] + [F("src/f%d" % i, 100, i + 1) for i in range(20)]
                                      + [D("dst"), D("dst/src")] + [D("dst/src/l%d" % i) for i in range(6)], ["-r", "src", "dst"])
+    # a FIFO where a regular file goes (the earlier version of the tree had a FIFO of that name, and FIFOs are recreated): nobody
+    # will ever read from it
+    out["fifo-at-file-destination"] = ([D("src"), F("src/x", 100, 1), F("src/y", 5000, 2), D("dst"), D("dst/src"), {"p": "dst/src/x", "k": "fifo"}], ["-r", "src", "dst"])
+    out["fifo-as-destination-operand"] = ([F("x", 100, 1), {"p": "pipe", "k": "fifo"}], ["x", "pipe"])
     out["block-device"] = ([D("src")] + [F("src/f%d" % i, 100, i + 1) for i in range(20)] + [{"p": "src/zblk", "k": "blk", "rdev": [7, 99]}], ["-r", "src", "dst"])
     # every worker dies early (failure on the special-file path sends no Error update) while hundreds of operations remain to be queued
     lots = [D("src2")] + [F("src2/f%03d" % i, 10, i + 1) for i in range(400)]
